@@ -112,8 +112,6 @@ def h_table_counts(nr, nc, axis, n, replace):
     seed = pick([0, 7], 'seed')
     RNG.reset()
     res, e = call(lambda: t.subsample(n, axis=axis, with_replacement=replace, seed=seed))
-    has_empty = any(all(not is_sym(x) and x == 0 for x in a.vec(axis, k)) and not any(c is not None for c in [None]) for k in range(N))
-    stored_any = a.info
     sig = dict(axis=axis, replace=int(replace), n=n)
     if e is not None:
         fail('subsample:raised', repr(e)[:160], all_vectors_have_entries=int(all(bool(totals[k] > 0) for k in range(N))), **sig)
